@@ -230,7 +230,12 @@ def check(ctx):
             dist0 = fld(sel(R, ZERO), 'distributions_')
             want_j = (ZERO, T.size(dist0))
             want_k = (ZERO, T.size(fld(sel(dist0, j), 'results_')))
-            okr = (loops[0]['lo'], loops[0]['hi']) == want_j and (loops[1]['lo'], loops[1]['hi']) == want_k
+            # ranges on the paths that reach the per-bin combination with a non-empty list of results
+            # (an empty list has nothing to combine, however the count of distributions is obtained)
+            pcs = tuple(e['pc']) + (('!=', n, ZERO),)
+            hj = simplify_under(loops[0]['hi'], pcs)
+            hk = simplify_under(loops[1]['hi'], pcs)
+            okr = (loops[0]['lo'], hj) == want_j and (loops[1]['lo'], hk) == want_k
             if okr:
                 ctx.holds('R4.ranges', where, 'per-bin combination runs over every distribution '
                           'and every bin')
